@@ -318,3 +318,60 @@ def npp(e, decls=None):
     if decls is not None:
         e = expand(e, decls)
     return pp(normalize(e))
+
+
+def pp_stmt(s, erase=None, indent=0):
+    """compact rendering of a statement tree; statements for which erase(s) is true are dropped."""
+    if s is None:
+        return ''
+    if erase is not None and erase(s):
+        return ''
+    pad = ' ' * indent
+    k = s.get('s')
+    if k == 'block':
+        inner = [pp_stmt(c, erase, indent + 1) for c in s['b']]
+        inner = [x for x in inner if x]
+        return pad + '{\n' + '\n'.join(inner) + '\n' + pad + '}'
+    if k == 'decl':
+        out = []
+        for v in s['vars']:
+            if 'unknown_decl' in v:
+                out.append(pad + '<unknown decl>')
+            else:
+                out.append(pad + '%s %s = %s;' % (short_type(v.get('ty', '')), v['n'], pp(v.get('init')) if v.get('init') is not None else '<none>'))
+        return '\n'.join(out)
+    if k == 'expr':
+        return pad + pp(s['e']) + ';'
+    if k == 'null':
+        return ''
+    if k == 'ret':
+        return pad + 'return %s;' % (pp(s['e']) if s.get('e') is not None else '')
+    if k == 'if':
+        cv = ''
+        if s.get('cv'):
+            cv = '%s %s = %s; ' % (short_type(s['cv'].get('ty', '')), s['cv']['n'], pp(s['cv'].get('init')))
+        t = pp_stmt(s['t'], erase, indent + 1)
+        e = pp_stmt(s.get('e'), erase, indent + 1) if s.get('e') else ''
+        r = pad + 'if (%s%s)\n%s' % (cv, pp(s['c']), t or (pad + ' ;'))
+        if e:
+            r += '\n' + pad + 'else\n' + e
+        return r
+    if k == 'for':
+        return pad + 'for (%s; %s; %s)\n%s' % (pp_stmt(s.get('init'), erase, 0).strip() if s.get('init') else '',
+                                               pp(s['c']) if s.get('c') is not None else '', pp(s['inc']) if s.get('inc') is not None else '',
+                                               pp_stmt(s.get('body'), erase, indent + 1))
+    if k == 'rfor':
+        return pad + 'for (%s : %s)\n%s' % (s['var']['n'] if s.get('var') else '?', pp(s.get('range')), pp_stmt(s.get('body'), erase, indent + 1))
+    if k in ('while', 'do'):
+        return pad + '%s (%s)\n%s' % (k, pp(s['c']), pp_stmt(s.get('body'), erase, indent + 1))
+    if k == 'break':
+        return pad + 'break;'
+    if k == 'cont':
+        return pad + 'continue;'
+    if k == 'switch':
+        return pad + 'switch (%s)\n%s' % (pp(s['c']), pp_stmt(s.get('body'), erase, indent + 1))
+    if k == 'case':
+        return pad + 'case %s:\n%s' % (pp(s.get('v')), pp_stmt(s.get('sub'), erase, indent + 1))
+    if k == 'default':
+        return pad + 'default:\n%s' % pp_stmt(s.get('sub'), erase, indent + 1)
+    return pad + '<%s>' % k
